@@ -658,7 +658,6 @@ func runC06Trace(t *testing.T, e *Env, ops []string) (viol []map[string]any, lea
 	return
 }
 
-
 // ---- end-to-end over real gRPC: validates GrpcStreamEnv itself ---------------------------------
 //
 // The bubbles above EMULATE gRPC (context cancellation unblocks Recv, handler return cancels the
@@ -670,13 +669,13 @@ func runC06Trace(t *testing.T, e *Env, ops []string) (viol []map[string]any, lea
 // scenario on the machine (the transport does not exist in the model).
 
 type c06E2E struct {
-	mu        sync.Mutex
-	srcGot    []int64
-	iniGot    []int64
-	srcEnded  bool
-	iniEnded  bool
-	cmd       chan string
-	ready     chan struct{}
+	mu       sync.Mutex
+	srcGot   []int64
+	iniGot   []int64
+	srcEnded bool
+	iniEnded bool
+	cmd      chan string
+	ready    chan struct{}
 }
 
 func runC06E2E(t *testing.T, e *Env, transport, ending string, answers bool) (string, bool) {
